@@ -705,7 +705,7 @@ func c20Sizes(c *Ctx, idx *int64) {
 
 func init() {
 	addCheck(&Check{ID: "C20", Level: "fault_enumeration",
-		Rule:   "the complete fault product as environment answers of the simulated network: cached inbound connection {absent, healthy, reset by the peer before send 0/1/2} x reconnectable path {fresh, stale (established earlier, then reset), stale-partial (takes the first 100 bytes of the next write, then breaks), absent} x every dial plan of up to three (thorough four) successive outcomes over {accepted, refused, accepted but every write fails, accepted but the first write is cut after 100 bytes (direct targets)} x working connection reset before send 0/1/2 or never x send sequences of 1-3 (thorough 1-4) messages, plus encoded message lengths of 65535 / 65536 / 65537 / 70000 / 200000 bytes (length in the body or in a header with an empty body) on the direct targets under no fault and single faults, for (a) the FailOverClientTransport obtained from the real ClientTransportMgr exactly as the proxy obtains it, (b) a directly constructed fail-over, (c) TCPBackend, (d) end to end: responses towards a TCP client whose connection breaks, (e) requests towards a TCP backend, with and without a configured backend-local-port (a bind to a port still held by an earlier connection fails in the simulation); oracle: Send returns nil iff exactly one complete copy was delivered, success is required whenever the next connection attempt is accepted with healthy writes, no write on a connection that failed before, no dial while the working connection is healthy, no hang, no crash; non-trivial = at least one fault in the pattern",
+		Rule:   "the complete fault product as environment answers of the simulated network: cached inbound connection {absent, healthy, reset by the peer before send 0/1/2} x reconnectable path {fresh, stale (established earlier, then reset), stale-partial (takes the first 100 bytes of the next write, then breaks), absent} x every dial plan of up to three (thorough four) successive outcomes over {accepted, refused, accepted but every write fails, accepted but the first write is cut after 100 bytes (direct targets)} x working connection reset before send 0/1/2 or never x send sequences of 1-3 (thorough 1-4) messages, plus encoded message lengths of 65535 / 65536 / 65537 / 70000 / 200000 bytes (length in the body or in a header with an empty body) on the direct targets under no fault and single faults, for (a) the FailOverClientTransport obtained from the real ClientTransportMgr exactly as the proxy obtains it, (b) a directly constructed fail-over, (c) TCPBackend, (d) end to end: responses towards a TCP client whose connection breaks, (e) requests towards a TCP backend, with and without a configured backend-local-port (a bind to a port still held by an earlier connection fails in the simulation), (f) write faults on the UDP path: 1-3 requests too long for a datagram once the Via is added, then ordinary requests to the same next hop, to the backends and from the next hop; oracle: Send returns nil iff exactly one complete copy was delivered, success is required whenever the next connection attempt is accepted with healthy writes, no write on a connection that failed before, no dial while the working connection is healthy, no hang, no crash; non-trivial = at least one fault in the pattern",
 		Assume: []string{"a write on a reset connection fails at once (the kernel's delayed RST, which makes exactly-once impossible for any implementation, is outside the model)", "a peer that black-holes a dial is outside what the simulation can decide"},
 		Run:    c20Run,
 		Replay: func(c *Ctx, raw json.RawMessage) string {
